@@ -160,9 +160,12 @@ def _value_bound_by(st, name):
                                 after = n_ - 1 - k
                                 sl = ast.Slice(lower=ast.Constant(value=k) if k else None, upper=ast.UnaryOp(op=ast.USub(), operand=ast.Constant(value=after)) if after else None, step=None)
                                 return ast.Subscript(value=st.value, slice=sl, ctx=ast.Load())
-        return None
     if isinstance(st, ast.AnnAssign) and st.value is not None and isinstance(st.target, ast.Name) and st.target.id == name:
         return st.value
+    if isinstance(st, (ast.Assign, ast.AnnAssign, ast.Expr, ast.Return)):
+        ws = [n for n in ast.walk(st) if isinstance(n, ast.NamedExpr) and isinstance(n.target, ast.Name) and n.target.id == name]
+        if len(ws) == 1:
+            return ws[0].value            # `(name := v)` inside a simple statement
     return None
 
 
@@ -449,6 +452,19 @@ def _bool(e, neg=False):
         return ("or" if neg else "and", frozenset(parts))
     if isinstance(e, ast.Constant) and isinstance(e.value, bool):
         return ("const", e.value != neg)
+    if isinstance(e, ast.IfExp):
+        # truth value of `b if t else o`:  (t and b) or (not t and o), with the constant branches folded
+        t, b, o = e.test, e.body, e.orelse
+        def const(x):
+            return x.value if isinstance(x, ast.Constant) and isinstance(x.value, bool) else None
+        if const(o) is False:
+            return _bool(ast.BoolOp(op=ast.And(), values=[t, b]), neg)
+        if const(o) is True:
+            return _bool(ast.BoolOp(op=ast.Or(), values=[ast.UnaryOp(op=ast.Not(), operand=t), b]), neg)
+        if const(b) is False:
+            return _bool(ast.BoolOp(op=ast.And(), values=[ast.UnaryOp(op=ast.Not(), operand=t), o]), neg)
+        if const(b) is True:
+            return _bool(ast.BoolOp(op=ast.Or(), values=[t, o]), neg)
     c = cx(e)
     return ("not", c) if neg else c
 
